@@ -11,6 +11,8 @@ package engines
 //	     the flagged entry points of `Tcell.Gen.LockFacts.flagged` — a difference means the extraction flags
 //	     something the detector cannot reproduce (a false alarm of the machinery) and breaks the correspondence.
 //	race pair    <impl> A B …                    sampled (quick) / all (thorough) pairs; observation SKIP.
+//	race life    tscreen A B …                   the lifecycle pairs (Suspend/Resume/Fini/Init against each other), always
+//	     generated whatever the facts say, with input and resize traffic; observation SKIP (oracle only).
 //	race block   tscreen Sync B …               tokenizer check: every Write seen while Sync and B run concurrently is
 //	     the Sync block or one of B's own blocks (class show-block-interleaved).
 //
@@ -18,6 +20,13 @@ package engines
 // mapped through the facts to a field; if an involved entry point is flagged on that field the class is
 // race-<entry> (race-sim-<entry>, race-disengage-tail); a report the facts do not predict is race-unpredicted.
 // A runtime fault of the subprocess (concurrent map access, panic) is attributed the same way (fault-… otherwise).
+// Watchdog (pair/confirm/life lines): a method call that has not returned 4 s after the run was stopped is class
+// lifecycle-deadlock — unless the facts flag `wg.state` (wg.Add not excluded from wg.Wait: the Wait of a Suspend then
+// also waits for loops a concurrent Resume started, which nobody stops), in which case it is the known
+// race-loops-overlap.
+//
+// The facts carry the SET of mutexes held at each access (`locks=` of gen/lockfacts.txt); two accesses can only race
+// if their sets are disjoint, which is what the choice of confirmation partners uses.
 
 import (
 	"bufio"
@@ -45,6 +54,16 @@ type rcFact struct {
 	wr, held, conc     bool
 	noloops            bool
 	lines              map[int]bool
+	locks              map[string]bool // names of the mutexes held (of the fact's own implementation)
+}
+
+func rcDisjoint(a, b map[string]bool) bool {
+	for k := range a {
+		if b[k] {
+			return false
+		}
+	}
+	return true
 }
 
 type rcFacts struct {
@@ -54,6 +73,8 @@ type rcFacts struct {
 	flagged  map[string]map[string]bool // impl/entry -> field -> true
 	flagNL   map[string]bool            // impl/entry -> all flagged facts are after wg.Wait
 	flagWr   map[string]map[string]bool // impl/entry -> field -> a flagged write exists
+	flagFx   map[string][]rcFact        // impl/entry -> the flagged facts (field, wr, locks)
+	mutexes  map[string][]string        // impl -> mutex names
 	warnings []string
 	err      error
 }
@@ -63,7 +84,7 @@ var rcF *rcFacts
 
 func rcLoad() *rcFacts {
 	rcOnce.Do(func() {
-		f := &rcFacts{entries: map[string][]string{}, kind: map[string]string{}, facts: map[string][]rcFact{}, flagged: map[string]map[string]bool{}, flagNL: map[string]bool{}, flagWr: map[string]map[string]bool{}}
+		f := &rcFacts{entries: map[string][]string{}, kind: map[string]string{}, facts: map[string][]rcFact{}, flagged: map[string]map[string]bool{}, flagNL: map[string]bool{}, flagWr: map[string]map[string]bool{}, flagFx: map[string][]rcFact{}, mutexes: map[string][]string{}}
 		rcF = f
 		gen := os.Getenv("VERIF_GEN")
 		if gen == "" {
@@ -89,8 +110,13 @@ func rcLoad() *rcFacts {
 					f.entries[t[1]] = append(f.entries[t[1]], t[2])
 				}
 			case "fact":
-				x := rcFact{impl: t[1], entry: t[2], field: t[3], wr: t[4] == "wr", held: t[5] == "locked", conc: t[6] == "conc", lines: map[int]bool{}}
+				x := rcFact{impl: t[1], entry: t[2], field: t[3], wr: t[4] == "wr", held: t[5] == "locked", conc: t[6] == "conc", lines: map[int]bool{}, locks: map[string]bool{}}
 				for _, u := range t[7:] {
+					if strings.HasPrefix(u, "locks=") && u != "locks=-" {
+						for _, l := range strings.Split(u[6:], ",") {
+							x.locks[l] = true
+						}
+					}
 					if strings.HasPrefix(u, "lines=") {
 						for _, l := range strings.Split(u[6:], ",") {
 							n, _ := strconv.Atoi(l)
@@ -117,6 +143,17 @@ func rcLoad() *rcFacts {
 				if t[len(t)-1] != "noloops" {
 					f.flagNL[k] = false
 				}
+				fx := rcFact{impl: t[1], entry: t[2], field: t[3], wr: t[4] == "wr", locks: map[string]bool{}}
+				for _, u := range t[5:] {
+					if strings.HasPrefix(u, "locks=") && u != "locks=-" {
+						for _, l := range strings.Split(u[6:], ",") {
+							fx.locks[l] = true
+						}
+					}
+				}
+				f.flagFx[k] = append(f.flagFx[k], fx)
+			case "mutex":
+				f.mutexes[t[2]] = append(f.mutexes[t[2]], t[3])
 			case "warning":
 				f.warnings = append(f.warnings, strings.Join(t[1:], " "))
 			}
@@ -162,7 +199,18 @@ func rcBinary() (string, string) {
 // ---- generation ---------------------------------------------------------------------------------------------
 
 var rcSkipOps = map[string]bool{"Init": true}
-var rcPartnerPref = []string{"SetContent", "Fill", "RegisterRuneFallback", "UnregisterRuneFallback", "SetTitle", "SetClipboard", "EnableMouse", "EnablePaste", "Sync", "Show"}
+var rcPartnerPref = []string{"SetContent", "Fill", "RegisterRuneFallback", "UnregisterRuneFallback", "SetTitle", "SetClipboard", "EnableMouse", "EnablePaste", "Sync", "Show", "Suspend", "Resume"}
+
+// rcCanRace: entry point p has a concurrent-phase access of field fld that conflicts with the flagged fact x (one of the
+// two writes) and shares no mutex with it — the only accesses x can race with
+func rcCanRace(f *rcFacts, impl, p string, x rcFact) bool {
+	for _, pf := range f.facts[impl+"/"+p] {
+		if pf.conc && pf.field == x.field && (pf.wr || x.wr) && rcDisjoint(pf.locks, x.locks) {
+			return true
+		}
+	}
+	return false
+}
 
 func rcGroup(field string) string {
 	switch {
@@ -189,6 +237,13 @@ func rcConfirmPairs(f *rcFacts) [][4]string { // impl, A, B, charset
 		}
 		groups := map[string][]string{}
 		for fld := range f.flagged[k] {
+			if e == "Fini" && fld == "wg.state" {
+				// Fini runs once per process, and the detector instruments a WaitGroup only at the first Add from zero and the
+				// first blocked Wait: one shot does not reproduce Add-vs-Wait reliably (measured 1 in 8).  The same source
+				// lines are flagged for Suspend (disengage is inlined into both), which repeats and is demanded below; the
+				// `life` lines still run Fini against Resume/Suspend and report whatever the detector sees.
+				continue
+			}
 			g := rcGroup(fld)
 			groups[g] = append(groups[g], fld)
 		}
@@ -198,9 +253,15 @@ func rcConfirmPairs(f *rcFacts) [][4]string { // impl, A, B, charset
 		}
 		sort.Strings(gs)
 		for _, g := range gs {
-			selfOK := false
+			inGroup := map[string]bool{}
 			for _, fld := range groups[g] {
-				if f.flagWr[k][fld] {
+				inGroup[fld] = true
+			}
+			// two instances of the entry point itself race when one of its own accesses conflicts with the flagged one and
+			// shares no mutex with it
+			selfOK := false
+			for _, x := range f.flagFx[k] {
+				if inGroup[x.field] && rcCanRace(f, impl, e, x) {
 					selfOK = true
 				}
 			}
@@ -208,20 +269,15 @@ func rcConfirmPairs(f *rcFacts) [][4]string { // impl, A, B, charset
 				out = append(out, [4]string{impl, e, e, g})
 				continue
 			}
-			// a partner with a conflicting concurrent-phase fact
+			// a partner with a conflicting concurrent-phase fact under a disjoint lock set
 			cand := map[string]bool{}
 			for _, p := range f.entries[impl] {
 				if p == e || rcSkipOps[p] || p == "Fini" {
 					continue
 				}
-				for _, pf := range f.facts[impl+"/"+p] {
-					if !pf.conc {
-						continue
-					}
-					for _, fld := range groups[g] {
-						if pf.field == fld && (pf.wr || f.flagWr[k][fld]) {
-							cand[p] = true
-						}
+				for _, x := range f.flagFx[k] {
+					if inGroup[x.field] && rcCanRace(f, impl, p, x) {
+						cand[p] = true
 					}
 				}
 			}
@@ -277,6 +333,20 @@ func rcGen(g *h.Gen) {
 				cs = "ISO8859-1"
 			}
 			g.Emit("race pair tscreen %s Show cs=%s ms=%d seed=%d", e, cs, ms, g.R.Intn(1<<30))
+		}
+	}
+	// the lifecycle pairs, whatever the facts say (a tree that serialises engage/disengage must be clean here and must
+	// not deadlock; the pinned tree shows race-disengage-tail / race-loops-overlap): input and resize traffic is on
+	life := [][2]string{{"Suspend", "Resume"}, {"Fini", "Resume"}, {"Suspend", "Suspend"}, {"Fini", "Suspend"}, {"Resume", "Resume"},
+		{"InitFini", "InitFini"}, {"InitFini", "Suspend"}, {"Suspend", "Sync"}, {"Suspend", "SetContent"}, {"Fini", "Show"}}
+	if g.Thorough() {
+		life = append(life, [2]string{"Suspend", "PollEvent"}, [2]string{"Suspend", "SetSize"}, [2]string{"Suspend", "EnableMouse"},
+			[2]string{"Fini", "PostEventWait"}, [2]string{"Fini", "Sync"}, [2]string{"InitFini", "Fini"}, [2]string{"Suspend", "ChannelEvents"})
+	}
+	lms := g.N(1200, 2500)
+	for rep := 0; rep < g.N(1, 3); rep++ {
+		for _, p := range life {
+			g.Emit("race life tscreen %s %s cs=UTF-8 ms=%d seed=%d", p[0], p[1], lms, g.R.Intn(1<<30))
 		}
 	}
 	// block check: unlocked tty writers and some locked controls
@@ -435,6 +505,11 @@ func rcParse(log string) [][2][]rcSide {
 	return reports
 }
 
+var rcFaultLocRe = regexp.MustCompile(`/(tscreen|screen|simulation)\.go:(\d+)`)
+
+// the Screen entry points behind the composite ops of the race binary
+var rcOpEntries = map[string][]string{"InitFini": {"Fini", "Suspend", "Resume", "Init"}, "Suspend": {"Suspend", "Resume"}}
+
 var rcMethRe = regexp.MustCompile(`tcell/v2\.\(\*(tScreen|baseScreen|simscreen)\)\.([A-Za-z]+)(\.func\d+)?`)
 
 // rcCanon: the entry point (outermost frame in package tcell that is a method of the screen types) and the site
@@ -490,7 +565,70 @@ func rcFieldsAt(f *rcFacts, impl, e string, line int) map[string][2]bool { // fi
 	return out
 }
 
+// rcRun: a `confirm` line whose flagged entry points were not all reproduced is given two more runs with other seeds
+// (schedules are sampled; the findings of all attempts are kept)
 func rcRun(line string) h.Result {
+	res := rcRunOnce(line, 0)
+	if !strings.Contains(line, " confirm ") || !strings.HasPrefix(res.Obs, "expect") {
+		return res
+	}
+	want := func(r h.Result) int { // number of flagged entry points among A, B still missing
+		f := rcLoad()
+		t := strings.Fields(line)
+		if len(t) < 5 {
+			return 0
+		}
+		miss := 0
+		seen := map[string]bool{}
+		for _, e := range []string{t[3], t[4]} {
+			if seen[e] {
+				continue
+			}
+			seen[e] = true
+			if len(f.flagged[t[2]+"/"+e]) > 0 && !strings.Contains(","+strings.TrimPrefix(r.Obs, "expect ")+",", ","+e+",") {
+				miss++
+			}
+		}
+		return miss
+	}
+	for attempt := 1; attempt <= 2 && want(res) > 0; attempt++ {
+		r2 := rcRunOnce(line, attempt)
+		if !strings.HasPrefix(r2.Obs, "expect") {
+			break
+		}
+		// union of the reproduced entry points (in A, B order) and of the findings (one per class)
+		t := strings.Fields(line)
+		var got []string
+		for _, e := range []string{t[3], t[4]} {
+			in := func(o string) bool { return strings.Contains(","+strings.TrimPrefix(o, "expect ")+",", ","+e+",") }
+			dup := false
+			for _, g := range got {
+				dup = dup || g == e
+			}
+			if !dup && (in(res.Obs) || in(r2.Obs)) {
+				got = append(got, e)
+			}
+		}
+		have := map[string]bool{}
+		for _, fd := range res.Findings {
+			have[fd.Class] = true
+		}
+		for _, fd := range r2.Findings {
+			if !have[fd.Class] {
+				res.Findings = append(res.Findings, fd)
+			}
+		}
+		res.Tags = append(res.Tags, "retried")
+		if len(got) == 0 {
+			res.Obs = "expect -"
+		} else {
+			res.Obs = "expect " + strings.Join(got, ",")
+		}
+	}
+	return res
+}
+
+func rcRunOnce(line string, attempt int) h.Result {
 	f := rcLoad()
 	t := strings.Fields(line)
 	res := h.Result{Obs: "SKIP", Nontrivial: true}
@@ -516,6 +654,7 @@ func rcRun(line string) h.Result {
 	if ms <= 0 || ms > 60000 {
 		ms = 700
 	}
+	seed += attempt * 1000003
 	res.Tags = []string{"kind:" + kind, "impl:" + impl}
 	if f.err != nil {
 		res.Obs = "no-facts"
@@ -612,7 +751,7 @@ func rcRun(line string) h.Result {
 				}
 				if hit {
 					reproduced[e] = true
-					add(rcClassName(f, impl, e), fmt.Sprintf("data race on %s: %s — %s accesses it without the screen lock", strings.Join(flaggedFields, ","), desc, e))
+					add(rcClassName(f, impl, e), fmt.Sprintf("data race on %s: %s — %s accesses it without the mutex that guards it (%s)", strings.Join(flaggedFields, ","), desc, e, rcHeldAt(f, impl, e, flaggedFields)))
 				}
 			}
 			continue
@@ -640,12 +779,59 @@ func rcRun(line string) h.Result {
 			}
 		}
 		attributed := false
-		for _, e := range []string{a, b} {
-			if len(f.flagged[impl+"/"+e]) > 0 && strings.Contains(txt, ")."+e+"(") {
-				reproduced[e] = true
-				add(rcClassName(f, impl, e), fmt.Sprintf("runtime fault while %s and %s run concurrently: %s (%s touches %s without the screen lock)", a, b, what, e, strings.Join(sortedKeysB(f.flagged[impl+"/"+e]), ",")))
-				attributed = true
+		// the fields accessed at the source lines of the faulting goroutine's stack (any entry point's facts)
+		faultFields := map[string]bool{}
+		ftxt := se.String() // the panic / fatal error trace (the race reports go to the GORACE log files)
+		if i := strings.Index(ftxt, "panic:"); i >= 0 {
+			ftxt = ftxt[i:]
+		} else if i := strings.Index(ftxt, "fatal error:"); i >= 0 {
+			ftxt = ftxt[i:]
+		}
+		for _, m := range rcFaultLocRe.FindAllStringSubmatch(ftxt, -1) {
+			n, _ := strconv.Atoi(m[2])
+			for k, xs := range f.facts {
+				if !strings.HasPrefix(k, impl+"/") {
+					continue
+				}
+				for _, x := range xs {
+					if x.conc && x.lines[n] {
+						faultFields[x.field] = true
+					}
+				}
 			}
+		}
+		var involved []string // the entry points the two ops call
+		for _, o := range []string{a, b} {
+			if es, ok := rcOpEntries[o]; ok {
+				involved = append(involved, es...)
+			} else {
+				involved = append(involved, o)
+			}
+		}
+		for _, e := range involved {
+			fl := f.flagged[impl+"/"+e]
+			if len(fl) == 0 || attributed {
+				continue
+			}
+			var hit []string
+			for fld := range fl {
+				if faultFields[fld] {
+					hit = append(hit, fld)
+				}
+			}
+			sort.Strings(hit)
+			if len(hit) == 0 && !strings.Contains(txt, ")."+e+"(") {
+				continue
+			}
+			if e == a || e == b {
+				reproduced[e] = true
+			}
+			cls := rcClassName(f, impl, e)
+			if strings.Contains(what, "WaitGroup") && fl["wg.state"] {
+				cls = "race-loops-overlap" // wg.Add (engage) concurrent with wg.Wait (disengage)
+			}
+			add(cls, fmt.Sprintf("runtime fault while %s and %s run concurrently: %s — the faulting goroutine is at a site that accesses %s, which %s touches without the mutex that guards it (flagged: %s)", a, b, what, strings.Join(hit, ","), e, strings.Join(sortedKeysB(fl), ",")))
+			attributed = true
 		}
 		if !attributed {
 			cls := "fault-panic"
@@ -655,6 +841,35 @@ func rcRun(line string) h.Result {
 			add(cls, fmt.Sprintf("runtime fault while %s and %s run concurrently: %s", a, b, what))
 		}
 		res.Tags = append(res.Tags, "fault")
+	}
+	if kind != "block" {
+		var o map[string]interface{}
+		_ = json.Unmarshal(so.Bytes(), &o)
+		if st, ok := o["stuck"].([]interface{}); ok && len(st) > 0 {
+			var names, parked []string
+			for _, x := range st {
+				names = append(names, fmt.Sprint(x))
+			}
+			if pk, ok := o["parked"].([]interface{}); ok {
+				for _, x := range pk {
+					parked = append(parked, fmt.Sprint(x))
+				}
+			}
+			sort.Strings(parked)
+			res.Tags = append(res.Tags, "stuck")
+			wgFlagged := false
+			for k, m := range f.flagged {
+				if strings.HasPrefix(k, impl+"/") && m["wg.state"] {
+					wgFlagged = true
+				}
+			}
+			msg := fmt.Sprintf("while %s and %s run concurrently the call of %s never returns (4 s after the run was stopped); goroutines inside the screen: %s", a, b, strings.Join(names, " and "), strings.Join(parked, " | "))
+			if wgFlagged {
+				add("race-loops-overlap", msg+" — the facts flag wg.state: wg.Add (engage) is not excluded from wg.Wait (disengage), so a Wait also waits for loops a concurrent Resume started and nobody stops")
+			} else {
+				add("lifecycle-deadlock", msg)
+			}
+		}
 	}
 	if kind == "block" {
 		var o map[string]interface{}
@@ -707,6 +922,23 @@ func rcRun(line string) h.Result {
 		}
 	}
 	return res
+}
+
+// rcHeldAt: what the flagged accesses of e on these fields do hold
+func rcHeldAt(f *rcFacts, impl, e string, fields []string) string {
+	seen := map[string]bool{}
+	for _, x := range f.flagFx[impl+"/"+e] {
+		for _, fld := range fields {
+			if x.field == fld {
+				l := strings.Join(sortedKeysB(x.locks), "+")
+				if l == "" {
+					l = "no mutex"
+				}
+				seen["holding "+l] = true
+			}
+		}
+	}
+	return strings.Join(sortedKeysB(seen), "; ")
 }
 
 func sortedKeysB(m map[string]bool) []string {
